@@ -27,7 +27,7 @@ theorem chunkOffsets_spec (b : Buf) (h : WF b) (post : Bytes) (e : Nat) :
     | zero => omega
     | succ f =>
       simp only [encAll_nil, List.length_nil, Nat.add_zero] at he
-      have hl : b.data.length = pre.length + post.length := by rw [hd]; simp
+      have hl : b.data.length = pre.length + post.length := by rw [hd]; simp [encAll_nil]
       unfold chunkOffsets
       rw [k_sortWalkCond_some _ _ (by omega) (by omega)]
       simp [he, marks, encAll_nil]
@@ -181,7 +181,7 @@ theorem marks_boundaries : ∀ (fuel : Nat) (l : List Bytes) (c off : Nat), c % 
     · simp only [he, if_false, boundaries]
       have hpos : 0 < l.length := List.length_pos_iff.mpr he
       have hT : l.take 1024 ≠ [] := by
-        intro h; have := congrArg List.length h; rw [List.length_take] at this; simp at this; omega
+        intro h; have := congrArg List.length h; rw [List.length_take, List.length_nil] at this; omega
       have hsplit : l = l.take 1024 ++ l.drop 1024 := (List.take_append_drop 1024 l).symm
       have hlenE : (encAll l).length = (encAll (l.take 1024)).length + (encAll (l.drop 1024)).length := by
         conv => lhs; rw [hsplit, encAll_append, List.length_append]
@@ -202,6 +202,7 @@ theorem marks_boundaries : ∀ (fuel : Nat) (l : List Bytes) (c off : Nat), c % 
         have hmod : (c + 1024) % 1024 = 0 := by omega
         have hdl : (l.drop 1024).length ≤ f := by rw [List.length_drop]; omega
         have := ih (l.drop 1024) (c + 1024) (off + (encAll (l.take 1024)).length) hmod hdl
-        rw [hTl, List.cons_append, List.nil_append, hlenE, ← Nat.add_assoc, this]
+        rw [hTl, List.cons_append, List.nil_append, hlenE, ← Nat.add_assoc]
+        exact congrArg (List.cons off) this
 
 end RV.Buffer
